@@ -292,7 +292,7 @@ Lemma worker_inv_frame latch latch' rcts rcts' j p :
   (latch <> None -> latch' <> None) ->
   worker_inv latch rcts j p -> worker_inv latch' rcts' j p.
 Proof.
-  intros Hr Hl. unfold worker_inv, slot_good. destruct p; rewrite Hr; auto;
+  intros Hr Hl. unfold worker_inv, slot_good. destruct p; rewrite ?Hr; auto;
     (intros [H|[H1 H2]]; [left; exact H|right; split; auto]).
 Qed.
 
@@ -373,7 +373,7 @@ Proof.
     + split; [apply (inv_len st I)|]. intros i Hi.
       destruct (nth_error (c_workers st) i) as [p|] eqn:Ep.
       * pose proof (inv_wk st I i p Ep) as W. pose proof (C i p Ep) as Cp.
-        rewrite EL in W. destruct p; cbn in Cp; try discriminate; cbn in W;
+        rewrite EL in W. destruct p; cbn in Cp; try discriminate; cbn in W; try contradiction;
           (destruct W as [W|[_ W]]; [exact W|congruence]).
       * apply nth_error_None in Ep. lia.
   - discriminate.
@@ -401,8 +401,9 @@ Proof.
   assert (Hil : i < length (c_workers st)) by (apply nth_error_Some; congruence).
   pose proof (inv_wlen st I) as Hwl. pose proof (inv_len st I) as Hrl.
   pose proof (inv_wk st I i p Ep) as W.
-  destruct p as [retry| | | |].
+  destruct p as [retry| | | | | |]; try (cbn in W; contradiction).
   - cbn in W. destruct W as (Lr & Pre & Slot).
+    change (fail_phase current) with WReport.
     destruct (s i retry) as [r| |] eqn:Eo.
     + intros H; inversion H; subst st'.
       apply (inv_update st i (WRun retry) WCommit (upd (c_rcts st) i (Some (RExec r))) (c_latch st) (c_tokens st)); auto.
